@@ -67,7 +67,12 @@ def gen_input(src, idx):
     k = src.int(0, 9)
     ctx = [["n", {"n": n}], ["m", {"n": m}], ["s", {"s": gen_string(src)}], ["d", {"date": d}], ["ts", {"s": ts}],
            ["k", {"n": str(k)}], ["a", {"n": "%d.%03d" % (src.int(0, 60), idx + 1)}], ["b", {"n": str(src.int(-9, 99))}],
-           ["v", {"n": "%d.%03d" % (src.int(0, 9000), idx + 1)}]]
+           ["v", {"n": "%d.%03d" % (src.int(0, 9000), idx + 1)}],
+           # values of types with allowed values: about half of them are not allowed (the typed input is then null)
+           ["status", {"s": src.choice(["EMPLOYED", "RETIRED", "STUDENT", "UNEMPLOYED", "retired", ""])}],
+           ["scores", {"l": [{"n": str(src.choice([0, 10, 20, 40, 100, 300, -1, 55]))} for _ in range(src.int(0, 5))]}],
+           ["person", {"c": [["name", {"s": "p%d" % idx}], ["status", {"s": src.choice(["EMPLOYED", "STUDENT", "NONE"])}],
+                             ["age", {"n": str(src.choice([0, 30, 150, 151, -1]))}]]}]]
     if src.bool(0.08):  # a missing input: null paths through item-definition / input-data evaluators
         drop = src.int(0, 5)
         ctx = ctx[:drop] + ctx[drop + 1:]
@@ -76,7 +81,7 @@ def gen_input(src, idx):
 
 # weights: cheap table/nested invocables often, the 1-2 ms ones less often (fixed work per plan stays bounded)
 INVOCABLE_WEIGHTS = [(4, "Mid"), (3, "Numeric"), (3, "Temporal"), (3, "Regex"), (3, "Grid"), (2, "Collect"), (2, "Priority"),
-                     (2, "Ranked"), (2, "Ordered"), (1, "Listed"), (1, "Least"), (3, "ManyZones"),
+                     (2, "Ranked"), (2, "Ordered"), (1, "Listed"), (1, "Least"), (3, "ManyZones"), (3, "Allowed"),
                      (2, "Svc"), (2, "Calc"), (2, "Leaf"), (1, "Band"), (1, "Base"), (2, "Top"), (1, "Powers"), (1, "Outer"),
                      (1, "No Such Invocable")]
 
@@ -86,7 +91,7 @@ def gen_plan(src):
     if src.bool(0.15):
         nthreads = src.int(2, 16)
     ncalls = src.int(2, 24)
-    focus = src.weighted([(5, None), (1, "numeric"), (1, "temporal"), (1, "regex"), (1, "table"), (2, "nested")])
+    focus = src.weighted([(5, None), (1, "numeric"), (1, "temporal"), (1, "regex"), (1, "table"), (2, "nested"), (2, "typed")])
     calls = []
     for i in range(ncalls):
         if focus is not None and src.bool(0.8):
